@@ -14,7 +14,7 @@ def nontrivial(beh):
 def gen_consts(steps, **over):
     c = dict(InCalls=[('ia1', 1), ('ia2', 1)], OutAliases=['oa1', 'oa2'], Vals=['v1', 'v2'], Excs=['E1'],
              OutResults=[('val', 'v1'), ('exc', 'E1')], Ends=['ret', 'raise'], Classes=[K('K1')],
-             MaxSteps=steps, MaxRuns=2, MaxRecs=1, Modes=['same', 'edit'], EditKinds=EDITS)
+             MaxSteps=steps, MaxRuns=2, MaxRecs=1, Modes=['same', 'edit'], EditKinds=EDITS, Ctl=['subop'])
     c.update(over)
     return consts(**c)
 
